@@ -607,14 +607,43 @@ type c02Params struct {
 
 func c02RunOne(res *core.Result, t *TableSpec) {
 	st := monstore.NewMem(t.DevSize)
-	if t.Prior != nil {
+	reused := false
+	if t.Prior != nil && t.Prior.Kind == "gpt" && t.Kind == "gpt" && !t.ViaDisk && len(t.GPT)%2 == 0 {
+		// the same Table value is written, changed into the new table, and written again (a caller that keeps
+		// its table around and edits it): the second Write must put the edited table on the disk
+		reused = true
+	}
+	var err error
+	var pi *core.PanicInfo
+	if reused {
+		tb := buildGPT(t.Prior)
+		nt := buildGPT(t)
+		pi = core.Guard(func() {
+			w, e := file.New(st, false).Writable()
+			if e != nil {
+				err = e
+				return
+			}
+			if e := tb.Write(w, t.DevSize); e != nil {
+				res.Count("prior.refused", 1)
+			} else {
+				res.Count("prior.written.same-table-value-edited", 1)
+				res.Mark("same gpt.Table value written, edited and written again")
+			}
+			tb.Partitions, tb.GUID, tb.ProtectiveMBR = nt.Partitions, nt.GUID, nt.ProtectiveMBR
+			tb.LogicalSectorSize, tb.PhysicalSectorSize = nt.LogicalSectorSize, nt.PhysicalSectorSize
+			err = tb.Write(w, t.DevSize)
+		})
+	} else if t.Prior != nil {
 		if err, pi := writeTable(st, t.Prior); err != nil || pi != nil {
 			res.Count("prior.refused", 1)
 		} else {
 			res.Count("prior.written."+t.Prior.Kind+"->"+t.Kind, 1)
 		}
 	}
-	err, pi := writeTable(st, t)
+	if !reused {
+		err, pi = writeTable(st, t)
+	}
 	cls := fmt.Sprintf("%s/lss%d/n%d", t.Kind, t.LSS, len(t.GPT)+len(t.MBR))
 	if pi != nil {
 		res.Fail(fmt.Sprintf("C02/%s/write-panic/%s:%s", t.Kind, pi.Top, pi.Class), "Table.Write panicked: "+pi.Msg, t)
@@ -676,7 +705,7 @@ func init() {
 			"GPT names are drawn from the property's domain (<= 36 UTF-16 units)",
 		},
 		MinSigs:   map[string]int{"quick": 500, "thorough": 8000},
-		NeedMarks: []string{"gpt/lss512", "gpt/lss4096", "mbr/lss512", "device over 2 TiB", "gpt 128 entries", "gpt name 36 units", "gpt name with surrogate pair"},
+		NeedMarks: []string{"gpt/lss512", "gpt/lss4096", "mbr/lss512", "device over 2 TiB", "gpt 128 entries", "gpt name 36 units", "gpt name with surrogate pair", "same gpt.Table value written, edited and written again"},
 		Cases: func(seed int64, tier string) []core.Case {
 			n, per := 48, 25
 			if tier == "thorough" {
